@@ -138,6 +138,16 @@ def check_vector(v):
                     if o != ("ok", (wd, wm)):
                         bad.append({"what": "per-row k-mer counts (axis=-1) read as a matrix / as a dictionary differ from the counts of each row", "tags": dict(tags, op="count_kmers-per-row"),
                                     "vector": v, "case": {"texts": texts, "k": k}, "expected": str(wd), "observed": str(o)[:300]})
+                # the most common k-mers: labels with their own counts, counts in non-increasing order (ties in any order)
+                def common():
+                    mc = count_kmers(seqs, k).most_common(2)
+                    return [[str(l_), int(c_)] for l_, c_ in zip(mc.alphabet, np.asarray(mc.counts).tolist())]
+                o = outcome(common)
+                n += 1
+                top = sorted(wl.values(), reverse=True)[:2]
+                if o[0] != "ok" or [c_ for _l, c_ in o[1]][:len(top)] != top or any(wl.get(l_, 0) != c_ for l_, c_ in o[1]):
+                    bad.append({"what": "most_common k-mers are not labels with their own counts in non-increasing order", "tags": dict(tags, op="count_kmers-most_common"),
+                                "vector": v, "case": {"texts": texts, "k": k}, "expected": str(top), "observed": str(o)[:300]})
                 o = outcome(lambda: [_digits(c, k, A) for c in np.atleast_1d(bnp.as_encoded_array([lab(km) for km in expc], KmerEncoding(_enc(alpha), k)).raw()).tolist()])
                 n += 1
                 if o != ("ok", [list(km) for km in expc]):
@@ -178,6 +188,16 @@ def check_vector(v):
             if o != ("ok", exps):
                 bad.append({"what": "get_motif_scores differs from the per-window sum of matrix entries", "tags": dict(tags, op="get_motif_scores"),
                             "vector": v, "case": {"texts": texts, "matrix": mat.tolist()}, "expected": exps, "observed": o})
+            # the score of one window at a time (PWM.calculate_score) is the entry of get_motif_scores for that window
+            def single_scores():
+                pw = PWM(mat, alpha)
+                return [[float(pw.calculate_score(bnp.as_encoded_array(t_[i:i + k], _enc(alpha)))) for i in range(len(t_) - k + 1)] for t_ in texts]
+            if not view:
+                o = outcome(single_scores)
+                n += 1
+                if o != ("ok", exps):
+                    bad.append({"what": "PWM.calculate_score of a window differs from the sum of matrix entries", "tags": dict(tags, op="PWM.calculate_score"),
+                                "vector": v, "case": {"texts": texts, "matrix": mat.tolist()}, "expected": exps, "observed": str(o)[:300]})
             if k >= 3:
                 mat0 = np.zeros((A, k))
                 for l in (0, 1):
